@@ -22,6 +22,10 @@ CHECKS = {
          "All 3 912 881 states (y,m,d,n,w,doy) are replayed on dow/get_doy/doy/doy2date/year/leap with fractional days; the integer-valued part of the property is covered completely; sidereal time is compared with the IAU 1982 expression in exact rationals at every lattice point.",
          "Trusts the reference calendar model (cross-checked by TLA+/TLC) and the rational evaluation of Meeus (12.4); sidereal clauses hold on the lattice, not on all reals.",
          "DESIGN.md 3/C16"),
+ "C19": (MC, "explicit-state enumeration of arithmetic calendars (tabular Islamic calendar as a successor machine, tabular Computus, molad/dehiyyot Hebrew calendar), every state replayed on the conversion functions",
+         "The quantifier domains are finite and are covered completely in both tiers: 14 713 Easter years, 3 000 Pesach years, all 885 917 Moslem dates of 1..2500 AH (forward and round trip) and all 868 713 civil days 622-07-16..3000-12-31 (backward), each against an independently written arithmetic calendar.",
+         "Trusts the three reference calendars (written from their defining rules, not from Meeus' closed forms) and the civil calendar model of C01.",
+         "DESIGN.md 3/C19"),
 }
 
 NOT_YET = {}
